@@ -14,6 +14,8 @@ use std::sync::Mutex;
 
 thread_local! {
     static REENTRANT: Cell<bool> = const { Cell::new(false) };
+    /// (offset, length) of the journal write in flight on this thread
+    static PENDING_RANGE: Cell<Option<(u64, u64)>> = const { Cell::new(None) };
 }
 
 static ACTIVE: AtomicBool = AtomicBool::new(false);
@@ -59,9 +61,12 @@ pub struct Ctl {
     pub split_journal_writes: bool,
     pub images: Vec<(u64, String)>, // (call number, label)
     pub fault: Option<Fault>,
-    /// per journal file: bytes covered by the last fsync/fdatasync at each call number
-    pub synced: std::collections::BTreeMap<String, u64>,
-    pub synced_history: Vec<(u64, std::collections::BTreeMap<String, u64>)>,
+    /// per journal file: byte ranges (offset, length) written since the last successful
+    /// fsync / fdatasync of that file (journal files are preallocated: a length is no measure
+    /// of what is synced)
+    pub synced: std::collections::BTreeMap<String, Vec<(u64, u64)>>,
+    /// the unsynced ranges as of each image
+    pub synced_history: Vec<(u64, std::collections::BTreeMap<String, Vec<(u64, u64)>>)>,
     pub marker: String,
 }
 
@@ -237,6 +242,22 @@ fn before(op: &'static str, path: &Path, len: i64, fd: Option<libc::c_int>, buf:
     } else {
         0
     };
+    // unsynced byte range of a journal write (recorded when the call succeeds, see `after`)
+    let mut wrange: Option<(u64, u64)> = None;
+    if is_journal && op == "write" {
+        if let Some(fd) = fd {
+            let off = unsafe { libc::syscall(libc::SYS_lseek, fd, 0, libc::SEEK_CUR) };
+            let off = if off < 0 { 0 } else { off as u64 };
+            let flags = unsafe { libc::syscall(libc::SYS_fcntl, fd, libc::F_GETFL) };
+            let off = if flags >= 0 && (flags as i32 & libc::O_APPEND) != 0 {
+                std::fs::metadata(c.root.join(rel)).map(|m| m.len()).unwrap_or(off)
+            } else {
+                off
+            };
+            wrange = Some((off, len.max(0) as u64));
+        }
+    }
+    PENDING_RANGE.with(|p| p.set(wrange));
     // crash image before the call
     if c.image_all {
         if let Some(dir) = c.image_dir.clone() {
@@ -330,12 +351,15 @@ fn after(n: u64, ret: i64, op: &'static str, path: &Path) {
     if let Some(e) = c.log.iter_mut().rev().find(|e| e.n == n) {
         e.ret = ret;
     }
-    if ret >= 0 && (op == "fsync" || op == "fdatasync") {
-        if let Ok(rel) = path.strip_prefix(&c.root) {
-            let rel_s = rel.to_string_lossy().to_string();
-            if rel_s.ends_with(".jnl") {
-                let len = std::fs::metadata(path).map(|m| m.len()).unwrap_or(0);
-                c.synced.insert(rel_s, len);
+    if let Ok(rel) = path.strip_prefix(&c.root) {
+        let rel_s = rel.to_string_lossy().to_string();
+        if rel_s.ends_with(".jnl") {
+            if ret >= 0 && (op == "fsync" || op == "fdatasync") {
+                c.synced.insert(rel_s, Vec::new());
+            } else if ret > 0 && op == "write" {
+                if let Some((off, _)) = PENDING_RANGE.with(|p| p.take()) {
+                    c.synced.entry(rel_s).or_default().push((off, ret as u64));
+                }
             }
         }
     }
